@@ -878,8 +878,10 @@ def array_fn(st, name, a, kind='real'):
     depends only on the first len(a) elements). No z3 lambdas / array theory."""
     if a.k == 'int' and kind == 'real':
         a = A.to_real(a)
-    probe = a.at(A._PROBE)
-    key = (name, probe.get_id(), a.n.get_id())
+    memo = {}
+    probe = z3.simplify(a.at(A._PROBE))
+    nn = z3.simplify(a.n)
+    key = (name, A.canon_key(probe, memo), A.canon_key(nn, memo))
     apps = st.ghost.get('fn_apps', {})
     if key in apps:
         return apps[key][0]
@@ -888,7 +890,7 @@ def array_fn(st, name, a, kind='real'):
         if k2[0] == name:
             st.assume(z3.Implies(A.arr_eq(a, a2), t == t2))
     apps = dict(apps)
-    apps[key] = (t, a, probe, a.n)
+    apps[key] = (t, a, probe, nn)
     st.ghost['fn_apps'] = apps
     return t
 
